@@ -92,8 +92,12 @@ class SymList:
                 return tot
         raise NotAlgebraic("integer expression %s" % ast.unparse(node)[:60])
 
-    def decide(self, test):
+    def decide(self, test, _depth=0):
         """Evaluate a branch test under the assumptions; None if unknown."""
+        if isinstance(test, ast.Name) and test.id in self.env and test.id not in self.f.params and _depth < 5:
+            return self.decide(self.env[test.id], _depth + 1)
+        if isinstance(test, ast.Constant) and isinstance(test.value, bool):
+            return test.value
         if isinstance(test, ast.UnaryOp) and isinstance(test.op, ast.Not):
             v = self.decide(test.operand)
             return None if v is None else not v
@@ -142,6 +146,16 @@ class SymList:
             return self.make_items(node.left) + self.make_items(node.right)
         if isinstance(node, ast.Name) and node.id in self.lists:
             return list(self.lists[node.id])
+        if isinstance(node, ast.IfExp):
+            d = self.decide(node.test)
+            if d is not None:
+                return self.make_items(node.body if d else node.orelse)
+        if isinstance(node, ast.Call) and isinstance(node.func, ast.Name) and node.func.id == "list" and len(node.args) == 1 and not node.keywords:
+            return self.make_items(node.args[0])
+        if isinstance(node, ast.GeneratorExp):
+            lc = ast.ListComp(elt=node.elt, generators=node.generators)
+            ast.copy_location(lc, node)
+            return self.make_items(lc)
         raise AnalysisError("unrecognised list expression %s" % ast.unparse(node)[:80])
 
     def family_range(self, it, g):
@@ -161,7 +175,8 @@ class SymList:
             it.iter_desc = ast.unparse(itn)
             return
         if isinstance(itn, ast.Call) and isinstance(itn.func, ast.Name) and itn.func.id == "enumerate" and len(itn.args) >= 1:
-            it.start = self.intval(itn.args[1]) if len(itn.args) > 1 else Poly.const(0)
+            kw = [k.value for k in itn.keywords if k.arg == "start"]
+            it.start = self.intval(itn.args[1]) if len(itn.args) > 1 else (self.intval(kw[0]) if kw else Poly.const(0))
             it.count = self.intval(ast.Call(func=ast.Name(id="len", ctx=ast.Load()), args=[itn.args[0]], keywords=[]))
             it.var = t.elts[0].id if isinstance(t, ast.Tuple) and isinstance(t.elts[0], ast.Name) else None
             it.value_var = t.elts[1].id if isinstance(t, ast.Tuple) and len(t.elts) > 1 and isinstance(t.elts[1], ast.Name) else None
@@ -206,7 +221,7 @@ class SymList:
                 args.append(a)
         return tpl, args
 
-    def strparts(self, e):
+    def strparts(self, e, _depth=0):
         """Symbolic string: list of literal str pieces and (arg, spec, conv) fields."""
         if isinstance(e, ast.Constant) and isinstance(e.value, str):
             return [e.value]
@@ -259,6 +274,12 @@ class SymList:
                 else:
                     merged.append(p)
             return merged
+        if isinstance(e, ast.Name) and e.id in self.env and e.id not in self.f.params and _depth < 6:
+            return self.strparts(self.env[e.id], _depth + 1)
+        if isinstance(e, ast.IfExp):
+            d = self.decide(e.test)
+            if d is not None:
+                return self.strparts(e.body if d else e.orelse, _depth + 1)
         raise AnalysisError("unrecognised line expression %s" % ast.unparse(e)[:80])
 
     def const_text(self, a):
@@ -270,6 +291,41 @@ class SymList:
         if isinstance(a, ast.Name) and a.id in self.f.params and a.id not in ("parameters", "connection", "configuration", "outfile"):
             # a formatting parameter (precision): keep a visible marker
             return "<%s>" % a.id
+        return None
+
+    def count_atom(self, sel, k, _depth=0):
+        """Column k of a one-row SELECT as a symbolic size `count(table.column)` (number of distinct non-NULL
+        values): count(DISTINCT c) FROM t;  count(*) FROM (SELECT DISTINCT c FROM t WHERE c IS NOT NULL);
+        a scalar sub-query of either form."""
+        if _depth > 3 or k >= len(sel.columns):
+            return None
+        e = sel.columns[k][0]
+        if e[0] == "subq":
+            # a scalar sub-query in the select list of a one-row statement without FROM
+            if sel.sources or sel.where is not None or len(e[1].columns) != 1:
+                return None
+            return self.count_atom(e[1], 0, _depth + 1)
+        if not (e[0] == "call" and e[1] == "COUNT" and len(sel.sources) == 1 and not sel.group_by and not sel.compound):
+            return None
+        src = sel.sources[0]
+        if e[3] and e[2] and e[2][0][0] == "col" and src.subq is None and sel.where is None:
+            return "count(%s.%s)" % (src.table, e[2][0][2])
+        if not e[3] and e[2] and e[2][0][0] == "star" and src.subq is not None and sel.where is None:
+            sq = src.subq
+            if sq.distinct and len(sq.columns) == 1 and sq.columns[0][0][0] == "col" and len(sq.sources) == 1 and sq.sources[0].subq is None \
+                    and not sq.group_by and not sq.compound and sq.limit is None:
+                col = sq.columns[0][0][2]
+                w = sq.where
+                notnull = w is not None and w[0] == "bin" and w[1] == "ISNOT" and w[2][0] == "col" and w[2][2] == col and w[3] == ("null",)
+                if w is None:
+                    # SELECT DISTINCT keeps one NULL row that count(DISTINCT) ignores: only the same for a NOT NULL column
+                    try:
+                        cd = self.ctx.schema.tables[sq.sources[0].table].col(col)
+                        notnull = bool(cd is not None and (cd.notnull))
+                    except Exception:
+                        notnull = False
+                if notnull:
+                    return "count(%s.%s)" % (sq.sources[0].table, col)
         return None
 
     # -- execution
@@ -309,11 +365,11 @@ class SymList:
                     and v.value.func.attr == "fetchone" and isinstance(v.value.func.value, ast.Call):
                 self.call_effect(v.value.func.value)          # cursor.execute(SQL).fetchone()[0]
             if isinstance(v, ast.Subscript) and isinstance(v.value, ast.Call) and isinstance(v.value.func, ast.Attribute) \
-                    and v.value.func.attr == "fetchone" and self.last_sql is not None:
-                sel = self.last_sql
-                e0 = sel.columns[0][0]
-                if e0[0] == "call" and e0[1] == "COUNT" and e0[3] and e0[2] and e0[2][0][0] == "col" and len(sel.sources) == 1:
-                    self.intenv[name] = Poly.atom("count(%s.%s)" % (sel.sources[0].table, e0[2][0][2]))
+                    and v.value.func.attr == "fetchone" and self.last_sql is not None \
+                    and isinstance(v.slice, ast.Constant) and isinstance(v.slice.value, int) and 0 <= v.slice.value < len(self.last_sql.columns):
+                atom = self.count_atom(self.last_sql, v.slice.value)
+                if atom is not None:
+                    self.intenv[name] = Poly.atom(atom)
                     return
             if isinstance(v, ast.ListComp) and self.last_sql is not None and "fetchall" in ast.unparse(v):
                 sel = self.last_sql
@@ -359,6 +415,51 @@ class SymList:
             return
         if isinstance(st, (ast.Pass, ast.Delete)):
             return
+        if isinstance(st, ast.With):
+            # with closing(connection.cursor()) as cursor: / with open(...) as f:
+            for item in st.items:
+                if isinstance(item.optional_vars, ast.Name):
+                    self.env[item.optional_vars.id] = item.context_expr
+            self.block(st.body)
+            return
+        if isinstance(st, ast.Assign) and len(st.targets) == 1 and isinstance(st.targets[0], (ast.Tuple, ast.List)) \
+                and all(isinstance(t, ast.Name) for t in st.targets[0].elts):
+            v = st.value
+            for _h in range(4):
+                if isinstance(v, ast.IfExp) and self.decide(v.test) is not None:
+                    v = v.body if self.decide(v.test) else v.orelse
+            if isinstance(v, (ast.Tuple, ast.List)) and len(v.elts) == len(st.targets[0].elts) and not any(isinstance(x, ast.Starred) for x in v.elts):
+                names = {t.id for t in st.targets[0].elts}
+                if not any(isinstance(n, ast.Name) and n.id in names for x in v.elts for n in ast.walk(x)):
+                    for t, x in zip(st.targets[0].elts, v.elts):
+                        eq = ast.Assign(targets=[t], value=x)
+                        ast.copy_location(eq, st)
+                        self.stmt(eq)
+                    return
+            if isinstance(v, ast.Call) and isinstance(v.func, ast.Attribute) and v.func.attr == "fetchone" and not v.args:
+                # a, b = cursor.fetchone()   is   a = cursor.fetchone()[0] ; b = ...[1]  (one row, read once)
+                for k, t in enumerate(st.targets[0].elts):
+                    eq = ast.Assign(targets=[t], value=ast.Subscript(value=v, slice=ast.Constant(value=k), ctx=ast.Load()))
+                    ast.copy_location(eq, st)
+                    ast.copy_location(eq.value, st)
+                    self.stmt(eq)
+                return
+            raise AnalysisError("unsupported tuple assignment %s" % ast.unparse(st)[:70])
+        if isinstance(st, ast.For) and not st.orelse and len(st.body) == 1:
+            # for T in IT: L.append(E)   is   L += [E for T in IT]
+            b = st.body[0]
+            elt = None
+            if isinstance(b, ast.Expr) and isinstance(b.value, ast.Call) and isinstance(b.value.func, ast.Attribute) and b.value.func.attr == "append" \
+                    and isinstance(b.value.func.value, ast.Name) and b.value.func.value.id in self.lists and len(b.value.args) == 1:
+                elt, lname = b.value.args[0], b.value.func.value.id
+            elif isinstance(b, ast.AugAssign) and isinstance(b.op, ast.Add) and isinstance(b.target, ast.Name) and b.target.id in self.lists \
+                    and isinstance(b.value, ast.List) and len(b.value.elts) == 1:
+                elt, lname = b.value.elts[0], b.target.id
+            if elt is not None:
+                lc = ast.ListComp(elt=elt, generators=[ast.comprehension(target=st.target, iter=st.iter, ifs=[], is_async=0)])
+                ast.copy_location(lc, st)
+                self.lists[lname] = self.lists[lname] + self.make_items(lc)
+                return
         raise AnalysisError("unsupported statement %s" % type(st).__name__)
 
     def _looks_list(self, v):
@@ -374,6 +475,13 @@ class SymList:
         return True
 
     def call_effect(self, c):
+        if isinstance(c.func, ast.Attribute) and isinstance(c.func.value, ast.Name) and c.func.value.id in self.lists and len(c.args) == 1 and not c.keywords:
+            if c.func.attr == "append":
+                self.lists[c.func.value.id] = self.lists[c.func.value.id] + [self.line_item(c.args[0], "lit")]
+                return
+            if c.func.attr == "extend":
+                self.lists[c.func.value.id] = self.lists[c.func.value.id] + self.make_items(c.args[0])
+                return
         if isinstance(c.func, ast.Attribute) and c.func.attr == "execute":
             s = self.ctx.site_of_call(c)
             if s is not None and s.stmt is not None and s.stmt.kind == "select":
